@@ -414,6 +414,12 @@ func (v *Verifier) cellSortByName(pkg0 *types.Package, name string) *Sort {
 		arr = true
 		name = name[2:]
 	}
+	if strings.HasPrefix(name, "*") {
+		if arr {
+			return ArraySort(SInt, SInt)
+		}
+		return SInt
+	}
 	var T types.Type
 	switch name {
 	case "int", "uint", "uint8", "uint32", "int64":
@@ -469,6 +475,23 @@ func (v *Verifier) frameCheck(st *State, base map[string]*Term, fresh []*Term, l
 		if al := findAlloc(fr.fn, a); al != nil {
 			cell := sortOf(elemType(al.Type()))
 			cells[heapName(cell)] = append(cells[heapName(cell)], v.val(st, al))
+			continue
+		}
+		isParam := false
+		for _, p := range fr.fn.Params {
+			if p.Name() == a {
+				if pt, ok := p.Type().Underlying().(*types.Pointer); ok {
+					cell := sortOf(pt.Elem())
+					pv := st.env[p]
+					if v.entry != nil && len(st.frames) == 1 {
+						pv = v.entry.env[p]
+					}
+					cells[heapName(cell)] = append(cells[heapName(cell)], pv)
+					isParam = true
+				}
+			}
+		}
+		if isParam {
 			continue
 		}
 		allow[heapName(v.cellSortByName(v.pkgOf(fr.fn), a))] = true
